@@ -127,7 +127,12 @@ def check(model, rep):
             _once(rep, seen, ('cont-pre', not pre_times), not pre_times, 'C11.once', 'Solver.run:continuation-start',
                   'a continued run appends an instant before stepping (the previous final time would be duplicated)', loc=loc)
         # ---- nothing after the loop
-        post_bad = [ev for ev in rp.post if ev.kind in ('time',) or ev.writes]
+        post_bad = [ev for ev in rp.post if ev.kind in ('time', 'time-write') or ev.writes]
+        for ev in [e for b in rp.bodies for e in b.events] + list(rp.pre):
+            if ev.kind == 'time-write':
+                _once(rep, seen, ('tw', ev.text), False, 'C11.once', 'Solver.run:axis-rewritten',
+                      f'`{ev.text}` modifies a recorded instant: the axis may only grow by appending start + k*dt',
+                      loc=f'{mod}:{ev.lineno}')
         _once(rep, seen, ('post', not post_bad), not post_bad, 'C11.once', 'Solver.run:after-loop',
               f'events after the stepping loop modify the history: {[e.text for e in post_bad][:3]}', loc=loc)
     for o, evs in rm.early_exits:
